@@ -11,10 +11,12 @@ import Driver.Meanstress
 import Driver.Vmap
 import Driver.Notch
 import Driver.Mesh
+import Driver.FailureProb
+import Driver.WoehlerAnalysis
 open PylifeVerif.Driver
 
 /-- All handlers; the first that recognises the op answers. -/
-def handlers : List (List String → Option String) := [handleRainflow, handleHCM, handleFkmNonlinear, handleWoehler, handleCollective, handleEquistress, handleMiner, handleMaterialLaws, handleBroadcast, handleMeanstress, handleVmap, handleNotch, handleMesh]
+def handlers : List (List String → Option String) := [handleRainflow, handleHCM, handleFkmNonlinear, handleWoehler, handleCollective, handleEquistress, handleMiner, handleMaterialLaws, handleBroadcast, handleMeanstress, handleVmap, handleNotch, handleMesh, handleFailureProb, handleWoehlerAnalysis]
 
 def answer (line : String) : String :=
   let toks := (line.splitOn " ").filter (· ≠ "")
